@@ -423,10 +423,10 @@ func genNum(c *Ctx, collide bool) NumDesc {
 		d.Text = strconv.FormatFloat(f, 'g', -1, 64)
 	}
 	huge := false
-	if c.G(48) == 0 {
+	if c.G(48) == 0 && hugeNumbers {
 		// far beyond what float64 holds: a power of two (one significant bit, so every precision holds it exactly)
 		// or its neighbour at 53 bits, thousands of binary digits away from one
-		k := []int{1100, 4097, 4100, -1100, 4097}[c.G(5)] // (small magnitudes this far out cost seconds to print)
+		k := []int{1100, 4097, 4100, 1100, 4097}[c.G(5)] // (small magnitudes this far out cost seconds to print)
 		f := new(big.Float).SetMantExp(big.NewFloat(1), k)
 		if c.G(3) == 0 {
 			f.SetPrec(53).Add(f, new(big.Float).SetMantExp(big.NewFloat(1), k-52))
@@ -1125,3 +1125,7 @@ func (v *VDesc) normalizeCollapsed() {
 		}
 	}
 }
+
+// hugeNumbers: whether genNum draws numbers thousands of binary digits away from one (set by the simulations whose
+// subject they are: C03; elsewhere every rendering of such a number costs what thousands of ordinary ones cost).
+var hugeNumbers = false
